@@ -37,6 +37,11 @@ _base_metrics.py (`Generated/BaseMetricsSrc.lean`).
      (W) replicate_commutes_with_grouping, weight_is_multiplicity_by_group, single_weighted_row_group,
      single_weighted_row_selection_rate   (F) metricframe_weight_is_multiplicity (cells AND index)                      FULL
 
+TIE (review): `named_bases_are_lifted`, `eodds_worst_is_lifted`, `subOne_is_lifted` identify the hand-written named-metric
+bases / worst-case builtins / `ratio_sub_one` of `Model/Weights.lean` with the text lifted by `fairness_named.py` /
+`aggregate.py`.  Still hand-written (a lifter could provide them — reported): `minL`/`maxL`/`rabs` composition of
+`difference` and `ratio` in `Weights.aggregate` (min/max choice: `AggregateSpec.diffAgg` … exist but are not used here).
+
 TOTALISATION.  Every clause is an equation between the SAME function on two inputs, so a default could only make both
 sides equal "by accident" where fairlearn gives two different non-numbers.  Checked: with PosMult and a non-empty input
 the total weight is positive on both sides (`total_weight_positive`, `total_weight_positive_P`); the empty input raises on
@@ -52,6 +57,8 @@ import FairModel.Lemmas.BaseMetricsSrc
 import FairModel.Lemmas.PoolWeights
 import FairModel.Lemmas.C11Review
 import FairModel.Lemmas.C14Review
+import FairModel.Generated.FairNamed
+import FairModel.Generated.AggregateSpec
 
 namespace C11
 open BaseMetrics Weights
@@ -446,6 +453,49 @@ theorem mean_prediction_all_zero_is_totalisation (rows : List (PRow × Nat)) (h0
   · rw [e2]; simp [meanPrediction]
 
 end Review
+
+/-! ### 10. Tie of the hand-written pieces of `Model/Weights.lean` to LIFTED source text (review R3)
+
+`Model/Weights.lean` writes out which base metric each named fairness metric disaggregates, the worst-case
+builtins of `equalized_odds_*` and `ratio_sub_one` by hand.  The lifters `fairness_named.py` and `aggregate.py`
+regenerate the same facts from `_fairness_metrics.py` / `_disaggregated_result.py` on every run; the theorems below
+identify the two, so a source edit there breaks a proof of this module instead of going unnoticed. -/
+
+section LiftedTie
+
+/-- the `Weights.Metric` a lifted base-metric name stands for (`pos_label` defaults) -/
+def baseMetric : FairNamed.Base → Metric
+  | .selrate => .sel 1
+  | .tpr => .rate .tpr none
+  | .fpr => .rate .fpr none
+
+/-- which metric `demographic_parity_*`, `equal_opportunity_*` and the two columns of `equalized_odds_*`
+    disaggregate — as lifted from `_fairness_metrics.py` -/
+theorem named_bases_are_lifted :
+    selMetric = baseMetric FairNamed.dpBase ∧ tprMetric = baseMetric FairNamed.eoppBase ∧
+    tprMetric = baseMetric FairNamed.eoddsFirst ∧ fprMetric = baseMetric FairNamed.eoddsSecond :=
+  ⟨rfl, rfl, rfl, rfl⟩
+
+/-- `agg="worst_case"` is Python's `max` for the difference and `min` for the ratio (`eoDifference` uses
+    `rmax`, `eoRatio` uses `pyMin`) — as lifted -/
+theorem eodds_worst_is_lifted :
+    FairNamed.eoddsDiffWorst = .pymax ∧ FairNamed.eoddsRatioWorst = .pymin := ⟨rfl, rfl⟩
+
+/-- the hand-written `subOne` is the lifted `ratio_sub_one` on every float (NaN, ±inf included) -/
+theorem subOne_is_lifted (x : XR) : subOne x = AggregateSpec.ratioSubOne x := by
+  cases x with
+  | nan => rfl
+  | ninf => rfl
+  | pinf => rfl
+  | fin q =>
+    unfold subOne AggregateSpec.ratioSubOne
+    simp only [XR.lt, XR.div]
+    by_cases h : 1 < q
+    · have hq : q ≠ 0 := by intro h0; rw [h0] at h; norm_num at h
+      simp [h, hq]
+    · simp [h]
+
+end LiftedTie
 
 /-! ### Non-vacuity: concrete inputs meeting the hypotheses, evaluated by the kernel. -/
 
